@@ -239,8 +239,9 @@ Qed.
 
 Lemma cinv_reachable cfg fx sp s : 1 <= nworkers cfg -> reachable_gen cfg fx sp s -> CInv cfg s.
 Proof.
-  intros HW. induction 1 as [|s te s' R IH H]; [apply cinv_init|].
-  eapply cinv_step; eauto. eapply rinv_reachable; eauto.
+  intros HW. induction 1 as [|s te s' R IH H|s te s' R IH H]; [apply cinv_init| |].
+  - eapply cinv_step; eauto. eapply rinv_reachable; eauto.
+  - destruct te as [t e]. destruct (xstep_inv _ _ _ _ H) as (Et & _). destruct IH as [C1 C2]. constructor; rewrite Et; auto.
 Qed.
 Local Transparent set.
 
@@ -338,8 +339,11 @@ Qed.
 
 Lemma ltinv_reachable cfg sp s : reachable cfg sp s -> LTInv s.
 Proof.
-  induction 1 as [|s te s' R IH H]; [apply ltinv_init|].
-  eapply ltinv_step; eauto. eapply inv_reachable; eauto.
+  induction 1 as [|s te s' R IH H|s te s' R IH H]; [apply ltinv_init| |].
+  - eapply ltinv_step; eauto. eapply inv_reachable; eauto.
+  - pose proof (xstep_ws_sub _ _ _ H CF) as SUB. destruct te as [t e]. cbn [ws] in SUB.
+    destruct (xstep_inv _ _ _ _ H) as (Et & _ & (_ & B & _ & _ & T & _) & _).
+    unfold LTInv in *. rewrite Et, B, T. intros (u & Hu). apply IH. exists u. destruct Hu as [(A1 & A2)|A]; auto.
 Qed.
 
 (** * The theorem *)
